@@ -33,6 +33,7 @@ PROPS = {
     'C02': dict(streams=['ticks', 'midix', 'write']),
     'C03': dict(streams=['scale', 'conv']),
     'C04': dict(streams=['lex', 'parse', 'conv']),
+    'C05': dict(streams=['threeway', 'conv']),
     'C06': dict(streams=['midix', 'write']),
     'C07': dict(streams=['ticks', 'write']),
     'C08': dict(streams=['midix', 'write']),
